@@ -27,6 +27,11 @@ Proof.
   destruct r as [|b r']; [cbn in H; inversion H; reflexivity|]. apply IH. exact H.
 Qed.
 
+Lemma In_skipn' {A} : forall k (l : list A) x, In x (skipn k l) -> In x l.
+Proof.
+  induction k as [|k IH]; intros l x H; [exact H|]. destruct l as [|a r]; [exact H|]. right. apply IH. exact H.
+Qed.
+
 Section Chain.
   Variable frows : N -> N.
   Variable fcontent : N -> Z -> N -> option N.
@@ -105,6 +110,205 @@ Section Chain.
       symmetry. apply nth_error_last. exact Hel. }
     rewrite Hlast. apply chain_of_steps.
     - rewrite <- Esk. apply steps_ok_skipn. exact Hs.
-    - intros x Hx. apply Hw. apply (In_skipn (S k)). exact Hx.
+    - intros x Hx. apply Hw. apply (In_skipn' (S k)). exact Hx.
+  Qed.
+
+
+  (* ---------------------------------------------------------------- schema of the next manifest *)
+  Lemma build_schema : forall m o m', build_manifest m o = Ok m' ->
+    m_schema m' = match o with Overwrite _ s _ | Merge _ s | Project s => s | _ => m_schema m end.
+  Proof.
+    intros m o m' H. destruct o; cbn [build_manifest] in H; try discriminate; try (inversion H; subst; reflexivity).
+    - (* Rewrite *)
+      destruct (rewrite_groups _ _ groups) as [frs| |]; try discriminate.
+      destruct (rewrite_indices _ _ rewritten groups) as [idx|]; [|discriminate]. inversion H; subst. reflexivity.
+    - (* Overwrite *) inversion H; subst. destruct cfgv; reflexivity.
+    - (* DataReplacement *)
+      destruct (negb (all_same_fields (map snd repl))); [discriminate|].
+      destruct (replace_all _ repl); [|discriminate]. inversion H; subst. reflexivity.
+    - (* UpdateConfig *) inversion H; subst. destruct cu; reflexivity.
+  Qed.
+
+  Lemma carry_id : forall o f, f_id (carry o f) = f_id f.
+  Proof. intros o f. destruct o; reflexivity. Qed.
+  Lemma carry_del : forall o f, f_del (carry o f) = f_del f.
+  Proof. intros o f. destruct o; reflexivity. Qed.
+
+  (* one committed step keeps a fragment it does not touch *)
+  Lemma step_untouched : forall m1 o m2 T fi f1,
+    wf_manifest m1 -> wf_manifest m2 -> build_manifest m1 o = Ok m2 -> GoodOp m1 o -> touched o = Some T ->
+    find_frag (f_id fi) (m_frags m1) = Some f1 -> Sim (m_schema m1) fi f1 -> ~ In (f_id fi) T ->
+    exists f2, find_frag (f_id fi) (m_frags m2) = Some f2 /\ Sim (m_schema m2) fi f2 /\ f_del f2 = f_del f1
+               /\ incl (schema_ids (m_schema m2)) (schema_ids (m_schema m1)).
+  Proof.
+    intros m1 o m2 T fi f1 Hw1 Hw2 Hb Hg Ht Hf Hs Hn.
+    apply find_frag_some in Hf as [Hin Hid].
+    assert (Hn' : ~ In (f_id f1) T) by (rewrite Hid; exact Hn).
+    pose proof (untouched_preserved frows fcontent m1 o m2 f1 T Hb Ht Hin Hn') as U.
+    set (f2 := detomb (carry o f1)) in *.
+    assert (Hid2 : f_id f2 = f_id fi) by (unfold f2; rewrite detomb_id, carry_id; exact Hid).
+    exists f2. destruct Hw2 as [Hnd2 [Hwf2 [Hs2 _]]]. destruct Hw1 as [_ [Hwf1 [Hs1 _]]].
+    split; [rewrite <- Hid2; apply find_frag_In; assumption|].
+    pose proof (build_schema _ _ _ Hb) as Es.
+    assert (Hdel : f_del f2 = f_del f1) by (unfold f2; rewrite detomb_del, carry_del; reflexivity).
+    destruct o; cbn [touched] in Ht; try discriminate; cbn [carry] in f2;
+      try (rewrite Es; split; [apply Sim_detomb; [exact Hs1 | exact Hs] | split; [exact Hdel | apply incl_refl]]).
+    (* Project *)
+    destruct Hg as [Hincl Hkeep]. rewrite Es. rewrite Es in Hs2.
+    assert (Hi : incl (schema_ids sch) (schema_ids (m_schema m1))).
+    { intros x Hx. unfold schema_ids in *. apply in_map_iff in Hx as [p [E Hp]]. subst. apply in_map. apply Hincl. exact Hp. }
+    split; [|split; [exact Hdel | exact Hi]].
+    apply Sim_detomb; [exact Hs2|]. destruct Hs as [S1 [S2 [S3 S4]]]. unfold Proofs_TxnFrame.Sim.
+    split; [exact S1 | split; [|split]].
+    - rewrite (frag_rows_proj frows sch f1 Hs2 (Hwf1 f1 Hin) (Hkeep f1 Hin)). exact S2.
+    - intros x o0 Hx. rewrite (fcell_proj fcontent sch f1 x o0 Hx). apply S3. apply Hi. exact Hx.
+    - exact S4.
+  Qed.
+
+  Definition untouched_by (M : list N) (o : op) : Prop :=
+    exists T, touched o = Some T /\ forall i, In i M -> ~ In i T.
+
+  Lemma chain_untouched : forall m ops m', Chain m ops m' -> wf_manifest m ->
+    forall M, (forall o, In o ops -> untouched_by M o) ->
+    forall fi f1, In (f_id fi) M -> find_frag (f_id fi) (m_frags m) = Some f1 -> Sim (m_schema m) fi f1 ->
+    exists f2, find_frag (f_id fi) (m_frags m') = Some f2 /\ Sim (m_schema m') fi f2 /\ f_del f2 = f_del f1
+               /\ incl (schema_ids (m_schema m')) (schema_ids (m_schema m)).
+  Proof.
+    intros m ops m' Hc. induction Hc as [m | m o m1 ops m' Hstep Hw1 Hc IH]; intros Hw M Hu fi f1 HM Hf Hs.
+    - exists f1. split; [exact Hf | split; [exact Hs | split; [reflexivity | apply incl_refl]]].
+    - destruct (Hu o (or_introl eq_refl)) as [T [Ht HT]].
+      destruct Hstep as [Hb Hg _ | v Ev]; [|subst o; discriminate].
+      destruct (step_untouched m o m1 T fi f1 Hw Hw1 Hb Hg Ht Hf Hs (HT _ HM)) as [f2 [F1 [F2 [F3 F4]]]].
+      destruct (IH Hw1 M (fun o' Ho' => Hu o' (or_intror Ho')) fi f2 HM F1 F2) as [f3 [G1 [G2 [G3 G4]]]].
+      exists f3. split; [exact G1 | split; [exact G2 | split; [congruence|]]].
+      intros x Hx. apply F4. apply G4. exact Hx.
+  Qed.
+
+
+  (* ---------------------------------------------------------------- the rebase state of a delete / update *)
+  Definition init_ids (init : list (frag * bool)) : list N := map (fun p => f_id (fst p)) init.
+
+  Lemma init_get_some : forall i init fr b, init_get i init = Some (fr, b) -> In (fr, b) init /\ f_id fr = i.
+  Proof.
+    intros i init fr b H. unfold init_get in H. apply find_some in H as [H E]. cbn [fst] in E. apply N.eqb_eq in E. auto.
+  Qed.
+  Lemma init_get_none : forall i init, init_get i init = None -> ~ In i (init_ids init).
+  Proof.
+    intros i init H Hin. unfold init_ids in Hin. apply in_map_iff in Hin as [p [E Hp]].
+    pose proof (find_none _ _ H p Hp) as Q. cbv beta in Q. rewrite E, N.eqb_refl in Q. discriminate.
+  Qed.
+  Lemma init_unique : forall init fi b fr bb, NoDup (init_ids init) -> In (fi, b) init -> In (fr, bb) init ->
+    f_id fi = f_id fr -> fi = fr /\ b = bb.
+  Proof.
+    induction init as [|p r IH]; intros fi b fr bb Hnd H1 H2 E; [destruct H1|]. cbn [init_ids map] in Hnd.
+    inversion Hnd as [|? ? Hn Hr]; subst.
+    destruct H1 as [H1 | H1]; destruct H2 as [H2 | H2].
+    - rewrite H1 in H2. inversion H2; auto.
+    - exfalso. apply Hn. subst p. cbn [fst]. rewrite E. apply (in_map (fun q => f_id (fst q)) r (fr, bb)). exact H2.
+    - exfalso. apply Hn. subst p. cbn [fst]. rewrite <- E. apply (in_map (fun q => f_id (fst q)) r (fi, b)). exact H1.
+    - exact (IH fi b fr bb Hr H1 H2 E).
+  Qed.
+  Lemma init_mark_ids : forall i bm init, init_ids (init_mark i bm init) = init_ids init.
+  Proof.
+    intros i bm init. unfold init_ids, init_mark. rewrite map_map. apply map_ext. intros [f b]. cbn [fst].
+    destruct (N.eqb (f_id f) i); reflexivity.
+  Qed.
+  Lemma init_mark_In : forall i bm init fi b1, In (fi, b1) (init_mark i bm init) ->
+    exists b0, In (fi, b0) init /\ b1 = (if N.eqb (f_id fi) i then b0 || bm else b0).
+  Proof.
+    intros i bm init fi b1 H. unfold init_mark in H. apply in_map_iff in H as [[f b] [E Hp]]. cbn [fst snd] in E.
+    destruct (N.eqb (f_id f) i) eqn:Ei; injection E as E1 E2; subst f; exists b; rewrite Ei; split; [exact Hp | symmetry; exact E2 | exact Hp | symmetry; exact E2].
+  Qed.
+  Lemma init_has_ids : forall i init, init_has i init = true <-> In i (init_ids init).
+  Proof.
+    intros i init. unfold init_has, init_ids. rewrite existsb_exists, in_map_iff. split.
+    - intros [p [Hp E]]. apply N.eqb_eq in E. exists p. auto.
+    - intros [p [E Hp]]. exists p. split; [exact Hp | apply N.eqb_eq; exact E].
+  Qed.
+
+  Lemma chk_updated_spec : forall upd init init', NoDup (init_ids init) -> chk_updated init upd = Some init' ->
+    init_ids init' = init_ids init
+    /\ (forall fi b', In (fi, b') init' -> exists b, In (fi, b) init /\ (b = true -> b' = true)
+          /\ (b' = false -> forall u, In u upd -> f_id u = f_id fi -> f_del u = f_del fi))
+    /\ (forall fi b u, In (fi, b) init -> In u upd -> f_id u = f_id fi -> f_files u = f_files fi).
+  Proof.
+    induction upd as [|u rest IH]; intros init init' Hnd H; cbn [chk_updated] in H.
+    - inversion H; subst. split; [reflexivity | split].
+      + intros fi b' Hin. exists b'. split; [exact Hin | split; [auto | intros _ u0 []]].
+      + intros fi b u0 _ [].
+    - destruct (init_get (f_id u) init) as [[fr bb]|] eqn:Eg.
+      + destruct (files_eqb (f_files fr) (f_files u)) eqn:Ef; [|discriminate].
+        apply files_eqb_eq in Ef. apply init_get_some in Eg as [Hfr Eid].
+        set (bm := negb (del_eqb (f_del u) (f_del fr))) in *.
+        assert (Hnd1 : NoDup (init_ids (init_mark (f_id u) bm init))) by (rewrite init_mark_ids; exact Hnd).
+        destruct (IH _ _ Hnd1 H) as [A [B C]]. split; [rewrite A; apply init_mark_ids | split].
+        * intros fi b' Hin. destruct (B fi b' Hin) as [b1 [Hb1 [Hmono Hdel]]].
+          apply init_mark_In in Hb1 as [b0 [Hb0 Eb1]]. exists b0. split; [exact Hb0 | split].
+          -- intros Et. apply Hmono. rewrite Eb1, Et. destruct (N.eqb (f_id fi) (f_id u)); reflexivity.
+          -- intros Ef' u0 [Hu0 | Hu0] Eu0.
+             ++ subst u0. destruct (init_unique init fi b0 fr bb Hnd Hb0 Hfr (eq_trans (eq_sym Eu0) (eq_sym Eid))) as [E1 _]. subst fr.
+                (* b' = false forces the mark of this step to be false *)
+                destruct b1.
+                ** specialize (Hmono eq_refl). congruence.
+                ** rewrite <- Eu0, N.eqb_refl in Eb1. symmetry in Eb1. apply orb_false_iff in Eb1 as [_ Eb].
+                   unfold bm in Eb. apply negb_false_iff in Eb. apply del_eqb_eq in Eb. exact Eb.
+             ++ exact (Hdel Ef' u0 Hu0 Eu0).
+        * intros fi b u0 Hin [Hu0 | Hu0] Eu0.
+          -- subst u0. destruct (init_unique init fi b fr bb Hnd Hin Hfr (eq_trans (eq_sym Eu0) (eq_sym Eid))) as [E1 _]. subst fr.
+             symmetry. exact Ef.
+          -- assert (Hin' : In (fi, if N.eqb (f_id fi) (f_id u) then b || bm else b) (init_mark (f_id u) bm init)).
+             { unfold init_mark. apply in_map_iff. exists (fi, b). cbn [fst snd]. split; [|exact Hin].
+               destruct (N.eqb (f_id fi) (f_id u)); reflexivity. }
+             exact (C _ _ u0 Hin' Hu0 Eu0).
+      + destruct (IH _ _ Hnd H) as [A [B C]]. split; [exact A | split].
+        * intros fi b' Hin. destruct (B fi b' Hin) as [b1 [Hb1 [Hmono Hdel]]]. exists b1. split; [exact Hb1 | split; [exact Hmono|]].
+          intros Ef' u0 [Hu0 | Hu0] Eu0; [|exact (Hdel Ef' u0 Hu0 Eu0)].
+          subst u0. exfalso. apply (init_get_none _ _ Eg). rewrite Eu0. unfold init_ids.
+          apply (in_map (fun q => f_id (fst q)) init (fi, b1)). exact Hb1.
+        * intros fi b u0 Hin [Hu0 | Hu0] Eu0; [|exact (C fi b u0 Hin Hu0 Eu0)].
+          subst u0. exfalso. apply (init_get_none _ _ Eg). rewrite Eu0. unfold init_ids.
+          apply (in_map (fun q => f_id (fst q)) init (fi, b)). exact Hin.
+  Qed.
+
+  Lemma check_all_cons : forall rb o os rb2, check_all rb (o :: os) = (VOk, rb2) ->
+    exists rb1, check_txn rb o = (VOk, rb1) /\ check_all rb1 os = (VOk, rb2).
+  Proof.
+    intros rb o os rb2 H. cbn [check_all] in H. destruct (check_txn rb o) as [v rb1]. destruct v; try (inversion H; fail).
+    exists rb1. split; [reflexivity | exact H].
+  Qed.
+
+  Lemma overlap_untouched : forall T M, overlapN T M = false -> forall i, In i M -> ~ In i T.
+  Proof. intros T M H i Hi Ht. apply (proj1 (overlapN_false T M) H i Ht Hi). Qed.
+
+  (* what a successful check of a delete / update against one committed operation says *)
+  Lemma check_du_result : forall rb mw isu other rb', check_delete_update rb mw isu other = (VOk, rb') -> gen_op other ->
+    (rb' = rb /\ untouched_by (rb_mod rb) other)
+    \/ (exists upd removed init',
+          (other = Delete upd removed \/ exists a b c d e, other = Update removed upd a b c d e)
+          /\ chk_updated (rb_init rb) upd = Some init'
+          /\ existsb (fun i => init_has i init') removed = false /\ rb' = with_init rb init').
+  Proof.
+    intros rb mw isu other rb' H Hg. destruct other; cbn [check_delete_update gen_op] in *; try contradiction;
+      try (inversion H; fail); try (inversion H; subst; left; split; [reflexivity | exists []; split; [reflexivity | intros i _ []]]).
+    - (* Delete *)
+      unfold check_du_vs_du in H. destruct (negb (overlapN (ids_of upd ++ del_ids) (rb_mod rb))) eqn:Eo.
+      + inversion H; subst. left. split; [reflexivity|]. exists (ids_of upd ++ del_ids). split; [reflexivity|].
+        apply overlap_untouched. apply negb_true_iff. exact Eo.
+      + destruct (rb_aff rb); [|inversion H]. destruct (chk_updated (rb_init rb) upd) as [init'|] eqn:Ec; [|inversion H].
+        destruct (existsb (fun i => init_has i init') del_ids) eqn:Ee; inversion H; subst.
+        right. exists upd, del_ids, init'. split; [left; reflexivity | auto].
+    - (* Update *)
+      unfold check_du_vs_du in H. destruct (negb (overlapN (ids_of upd ++ removed) (rb_mod rb))) eqn:Eo.
+      + inversion H; subst. left. split; [reflexivity|]. exists (ids_of upd ++ removed). split; [reflexivity|].
+        apply overlap_untouched. apply negb_true_iff. exact Eo.
+      + destruct (rb_aff rb); [|inversion H]. destruct (chk_updated (rb_init rb) upd) as [init'|] eqn:Ec; [|inversion H].
+        destruct (existsb (fun i => init_has i init') removed) eqn:Ee; inversion H; subst.
+        right. exists upd, removed, init'. split; [right; eauto 10 | auto].
+    - (* Rewrite *)
+      destruct (overlapN (group_old_ids groups) (rb_mod rb)) eqn:Eo; inversion H; subst.
+      left. split; [reflexivity|]. exists (group_old_ids groups). split; [reflexivity | apply overlap_untouched; exact Eo].
+    - (* DataReplacement *)
+      destruct (overlapN (map fst repl) (rb_mod rb)) eqn:Eo; inversion H; subst.
+      left. split; [reflexivity|]. exists (map fst repl). split; [reflexivity | apply overlap_untouched; exact Eo].
   Qed.
 End Chain.
